@@ -9,6 +9,13 @@ Modes == {"RN", "RD", "RU", "RZ"}
 Envs  == [rc : Modes, x87rc : Modes, ftz : {0, 1}, daz : {0, 1}]
 DefaultEnv == [rc |-> "RN", x87rc |-> "RN", ftz |-> 0, daz |-> 0]
 
+\* The mode "current at the call" for binary32 / binary64 lanes is the one the C library's own nearbyint / rint obey
+\* on this platform: the rounding control of MXCSR (field rc).  fesetround sets both units; a program that writes
+\* MXCSR alone (_MM_SET_ROUNDING_MODE, _mm_setcsr) puts them out of step, and the result must still follow rc - a
+\* dispatch on fegetround() (which reads the x87 word) would follow x87rc.  Facts taken in such a state carry the
+\* x87 mode as "x87"; it does not enter the expected result.
+CurrentMode(env) == env.rc
+
 \* An AVEL operation, whatever it is, is a step that leaves the environment as
 \* it found it.  The only step allowed to change it is the program's own
 \* fesetround / _mm_setcsr (SetEnv in Avel.tla).
